@@ -49,6 +49,7 @@ type (
 		respVersion     int
 		noEvict         bool
 		multiInProgress bool
+		execDsc         *dataStoreCommand // while this connection runs EXEC: the command that owns its database
 		libName         string
 		libVer          string
 	}
